@@ -357,6 +357,9 @@ int mythv_choose(int id, int n) {
 #define MV_EPOCH_SEC 1000000L
 #define MV_TICK_NS   1000L
 #define MV_JUMP_NS   1000000000L
+static long mv_tick_ns = MV_TICK_NS, mv_jump_ns = MV_JUMP_NS;
+/* a harness that sleeps for seconds makes the clock coarse: every read advances it by tick_ns (default answer) or jump_ns (deviation) */
+void mv_set_clock_step(long tick_ns, long jump_ns) { mv_tick_ns = tick_ns; mv_jump_ns = jump_ns; }
 
 /* clock samples: what a watched word held each time a thread read the clock (timed waits attempt right after) */
 static const volatile void * cw_addr; static size_t cw_sz;
@@ -373,7 +376,7 @@ int mythv_clock(struct timespec * ts) {
   check_owner("clock");
   S.yl_n[tl_w] = 0;
   int c = next_choice(MV_STEP_VALUE, mythv_p_clock, tl_w, 2, 2);
-  S.now_ns += c ? MV_JUMP_NS : MV_TICK_NS;
+  S.now_ns += c ? mv_jump_ns : mv_tick_ns;
   mv_sh->steps[mv_sh->nsteps - 1].tgt = c;
   ts->tv_sec = MV_EPOCH_SEC + S.now_ns / 1000000000L;
   ts->tv_nsec = S.now_ns % 1000000000L;
